@@ -181,11 +181,27 @@ def _worker_entry(args):
     try:
         guarded(lambda: fn(task, col), col, task)
     except BaseException as e:  # harness error inside a worker
-        col.count("harness_errors")
-        col.violations.setdefault("__harness__", []).append(
-            Violation("__harness__", "".join(traceback.format_exception(e))[-3000:],
-                      jsonable(task)))
+        record_escape(col, e, task)
     return col
+
+
+def record_escape(col, e, task):
+    """An exception that escaped from a task.  Raised inside the library (innermost frame under
+    dns/) it is the library misbehaving on one of the task's small inputs at a place where the
+    harness did not expect any exception - reported as a violation (it never happens on the
+    unchanged tree, where it would show up as exit 2 during development); raised by the harness
+    itself it stays a harness error."""
+    tb = traceback.extract_tb(e.__traceback__)
+    text = "".join(traceback.format_exception(e))[-3000:]
+    if tb and (os.sep + "dns" + os.sep) in tb[-1].filename and isinstance(e, Exception):
+        col.count("library_exceptions_escaping_the_harness")
+        key = "__libcrash__/%s@%s" % (type(e).__name__, tb[-1].name)
+        col.violations.setdefault(key, []).append(
+            Violation(key, "exception raised inside the library where the harness expects none: " + text[-1200:],
+                      {"mode": "runaway", "task": jsonable(task)}))
+    else:
+        col.count("harness_errors")
+        col.violations.setdefault("__harness__", []).append(Violation("__harness__", text, jsonable(task)))
 
 
 class Context(Collector):
@@ -262,11 +278,13 @@ def finish(ctx: Context, module) -> int:
     if runaway:
         # not re-executed (it would run away again); reported as found
         ctx.violations[ctx.prop + "/runaway-task"] = runaway
+    for k in [k for k in ctx.violations if k.startswith("__libcrash__/")]:
+        ctx.violations[ctx.prop + "/library-exception-in-harness/" + k.split("/", 1)[1]] = ctx.violations.pop(k)
     seen_known = set()
     for sig in sorted(ctx.violations):
         vs = ctx.violations[sig]
         v = vs[0]
-        if recheck is not None and not sig.endswith("/runaway-task"):
+        if recheck is not None and not sig.endswith("/runaway-task") and "/library-exception-in-harness/" not in sig:
             # deterministic replay: the same case must fail the same way twice
             try:
                 again1 = recheck(unjson(v.case))
